@@ -45,6 +45,8 @@ struct Inner {
     /// when false, yield points pass through
     controlled: bool,
     gen: u64,
+    /// the global panic count when the current case began
+    case_panics0: u64,
 }
 
 pub struct Sched {
@@ -83,6 +85,7 @@ impl Sched {
         g.actors.clear();
         g.notes.clear();
         g.gen += 1;
+        g.case_panics0 = PANICS.load(std::sync::atomic::Ordering::SeqCst);
         self.cv.notify_all();
     }
 
@@ -147,16 +150,16 @@ impl Sched {
     /// waits until actor `a` has arrived somewhere new (its arrival counter exceeds `seen`)
     pub fn wait_arrival(&self, a: Actor, seen: u64, timeout: Duration) -> Arrival {
         let deadline = Instant::now() + timeout;
-        let panics0 = PANICS.load(std::sync::atomic::Ordering::SeqCst);
         let mut panic_seen_at: Option<Instant> = None;
         let mut g = self.inner.lock().unwrap();
         loop {
-            // a thread panicked while we wait: give the actor a short grace period, then report it
-            // as not coming back instead of sitting out the whole timeout
-            if PANICS.load(std::sync::atomic::Ordering::SeqCst) > panics0 {
+            // a thread has panicked in this case (now or earlier): the case is lost anyway (the panic is
+            // reported); give the actor a short grace period, then report it as not coming back instead
+            // of sitting out the whole timeout
+            if PANICS.load(std::sync::atomic::Ordering::SeqCst) > g.case_panics0 {
                 match panic_seen_at {
                     None => panic_seen_at = Some(Instant::now()),
-                    Some(t0) if t0.elapsed() > Duration::from_secs(5) => {
+                    Some(t0) if t0.elapsed() > Duration::from_millis(1500) => {
                         if g.actors.get(&a).map_or(true, |s| s.arrivals <= seen) {
                             return Arrival::Blocked;
                         }
@@ -200,8 +203,45 @@ impl Sched {
 pub static PANICS: std::sync::atomic::AtomicU64 = std::sync::atomic::AtomicU64::new(0);
 pub static LAST_PANIC: std::sync::Mutex<String> = std::sync::Mutex::new(String::new());
 
+/// Points between an operation's `is_closed` check and its send: not scheduling points of the model
+/// (the interleaved suites pass through them); the parallel `stress` suite stretches them (`Chaos`).
+pub fn is_check_window(name: &str) -> bool {
+    name.ends_with(":after_check")
+}
+
+/// Hooks for the parallel `stress` suite: nobody is parked; every yield point is a place where the
+/// calling thread may lose a little time (nothing, a spin, a yield or a short sleep, pseudo-randomly),
+/// which stretches exactly the windows in which races between clients, processor and close() live.
+pub struct Chaos(pub std::sync::atomic::AtomicU64);
+
+impl stretto::verif::Hooks for Chaos {
+    fn yield_point(&self, name: &'static str) {
+        use std::sync::atomic::Ordering::Relaxed;
+        let mut x = self.0.fetch_add(0x9E37_79B9_7F4A_7C15, Relaxed) ^ (name.len() as u64).wrapping_mul(0xD1B5_4A32_D192_ED03);
+        x ^= x >> 33;
+        x = x.wrapping_mul(0xFF51_AFD7_ED55_8CCD);
+        x ^= x >> 29;
+        // the check windows are what the interleaved suites cannot reach: always stretch them
+        let k = if is_check_window(name) { 10 + x % 6 } else { x % 16 };
+        match k {
+            0..=9 => {}
+            10..=12 => {
+                for _ in 0..(x >> 40) % 4000 {
+                    std::hint::spin_loop();
+                }
+            }
+            13 | 14 => std::thread::yield_now(),
+            _ => std::thread::sleep(std::time::Duration::from_micros((x >> 50) % 100)),
+        }
+    }
+    fn note(&self, _name: &'static str, _args: &[u64]) {}
+}
+
 impl stretto::verif::Hooks for Sched {
     fn yield_point(&self, name: &'static str) {
+        if is_check_window(name) {
+            return;
+        }
         let a = Sched::actor_of(name);
         let mut g = self.inner.lock().unwrap();
         let my_gen = match GEN.with(|c| c.get()) {
